@@ -36,6 +36,7 @@ INVARIANT Proportional
 INVARIANT OperationalBelowDenot
 INVARIANT DiscUniform
 INVARIANT DiscEmpty
+INVARIANT SeqIndependent
 INVARIANT TriLawSound
 INVARIANT Emit
 CHECK_DEADLOCK FALSE
@@ -50,6 +51,11 @@ def catalogue():
         G.grid("G1", [[0, 1, 0, 0], [0, 0, 1, 0], [1, 0, 0, 0]], 1, 1, -1.75, -0.75),
         G.pset("Q4", (0.25, 0.25, 0), (1.25, 1.25, 0), (-0.75, 2.25, 0), (2.25, 0.25, 0), (-1.75, -1.75, 0), (0.25, -2.75, 0)),
         *G.more_multipolygons(),
+        # alternatives of a RANDOM second operand with a fixed circumcircle (same centre / radius)
+        G.sect("SB", 0, 0, 0, 4, 4, 1),      # S1 turned by 180 degrees
+        G.sect("SC", 0, 0, 0, 4, 0, 2),      # S1 widened to 180 degrees
+        G.rect("RA", 0, 0, 0, 5, 1, 0),
+        G.rect("RB", 0, 0, 0, 5, 1, 1),      # RA turned by 90 degrees
         G.pset("Q5", (0.25, 0.25, 2), (1.25, 1.25, 2), (-0.75, 2.25, 2), (2.25, 0.25, 2), (-1.75, -1.75, 2), (0.25, -2.75, 2)),
     ]
     return cat
@@ -124,6 +130,64 @@ def run_disc(item):
         return {"error": type(e).__name__, "stage": "sample", "msg": str(e)[:200], "rtype": type(reg).__name__}
     return {"law": [[list(k) if k != "rejected" else k, v.numerator, v.denominator] for k, v in law.items()], "branches": n,
             "rtype": type(reg).__name__}
+
+
+# ------------------------------------------------------------------ (a') consecutive samples, random second operand
+
+# (point set, the equiprobable alternatives of the random operand, what is random)
+SEQ_CASES = [("Q4", ["S1", "SB"], "heading"), ("Q4", ["S1", "SC"], "angle"), ("G1", ["S1", "SB"], "heading"),
+             ("Q4", ["RA", "RB"], "heading"), ("Q2", ["SB", "S1"], "heading"), ("Q4", ["SB", "SC"], "both")]
+
+
+def run_seq(item):
+    (psn, alts, what), cat, nsamp = item
+    import math
+
+    from scenic.core.distributions import Options, RejectionException
+    import scenic.core.regions as R
+    from scenic.core.vectors import Vector
+
+    ix = idx(cat)
+    ds = [cat[ix[a]] for a in alts]
+    f = lambda v: v / S  # noqa: E731
+
+    def build():
+        ps = G.build(cat[ix[psn]])
+        n0 = ds[0]["n"]
+        if ds[0]["k"] == "sect":
+            headings = [d["n"][4] * math.pi / 4 for d in ds]
+            angles = [d["n"][5] * math.pi / 2 for d in ds]
+            if what == "both":   # heading and angle are one joint choice
+                pairs = Options(list(zip(headings, angles)))
+                other = R.SectorRegion(Vector(f(n0[0]), f(n0[1]), f(n0[2])), f(n0[3]), pairs[0], pairs[1])
+            else:
+                h = Options(headings) if what == "heading" else headings[0]
+                a = Options(angles) if what == "angle" else angles[0]
+                other = R.SectorRegion(Vector(f(n0[0]), f(n0[1]), f(n0[2])), f(n0[3]), h, a)
+        else:
+            other = R.RectangularRegion(Vector(f(n0[0]), f(n0[1]), f(n0[2])), Options([d["n"][5] * math.pi / 2 for d in ds]), f(n0[3]), f(n0[4]))
+        return R.Region.uniformPointIn(ps.intersect(other))
+
+    def run(_s):
+        dist = build()   # ONE IntersectionRegion object, sampled nsamp times in a row
+        out = []
+        for _k in range(nsamp):
+            try:
+                out.append(_snapt(dist.sample()))
+            except RejectionException:
+                out.append("rejected")
+        return tuple(out)
+
+    law, n = {}, 0
+    try:
+        for outcome, w, _log in srng.explore(run, thresholds=[Fraction(1, 2)], max_paths=20000):
+            n += 1
+            law[outcome] = law.get(outcome, Fraction(0)) + w
+    except Exception as e:
+        import traceback
+
+        return {"error": f"{type(e).__name__}: {e}"[:300], "tb": traceback.format_exc()[-800:]}
+    return {"law": [[[list(p) if p != "rejected" else p for p in k], v.numerator, v.denominator] for k, v in law.items()], "branches": n}
 
 
 # ------------------------------------------------------------------ (b) abstract cases
@@ -430,7 +494,7 @@ def main(tier):
         acases = acases[::40]
     apath = os.path.join(scratch(), "c03abs.json")
     with open(apath, "w") as f:
-        json.dump({"cat": [], "disc": [], "abs": acases, "traces": [], "prim": [], "tri": []}, f)
+        json.dump({"cat": [], "disc": [], "abs": acases, "traces": [], "prim": [], "tri": [], "seq": []}, f)
     abs_box = {}
 
     def _abs_run():
@@ -449,15 +513,16 @@ def main(tier):
     if cache and os.path.exists(cache):
         import pickle
 
-        dres, tres, pres = pickle.load(open(cache, "rb"))
+        dres, tres, pres, sres_ = pickle.load(open(cache, "rb"))
     else:
         dres = pmap(run_disc, [(c, cat) for c in dcases])
+        sres_ = pmap(run_seq, [(c, cat, 2) for c in SEQ_CASES], chunk=1)
         tres = pmap(run_traces, [(tp, cat, ntr, sd * 977 + 13 * k) for k, tp in enumerate(TRACE_PAIRS)], chunk=1)
         pres = pmap(run_prim, pitems, chunk=1)
         if cache:
             import pickle
 
-            pickle.dump((dres, tres, pres), open(cache, "wb"))
+            pickle.dump((dres, tres, pres, sres_), open(cache, "wb"))
     ck.cov["wall_real_code_s"] = round(time.time() - ck.t0, 1)
 
     # ---- the TLC input
@@ -525,7 +590,8 @@ def main(tier):
         tl_cat.append(G.to_tla(G.comp(op, cat[ix[an]], cat[ix[bn]])))
         tl_prim.append({"r": len(tl_cat), "smp": [p for p, _raw in pts]})
         ret_meta.append((len(tl_prim) - 1, op, an, bn, pts))
-    data = {"cat": tl_cat, "disc": tl_disc, "abs": [], "traces": tl_traces, "prim": tl_prim, "tri": tl_tri}
+    tl_seq = [{"ps": ix[psn] + 1, "alts": [ix[a] + 1 for a in alts], "n": 2} for psn, alts, _w in SEQ_CASES]
+    data = {"cat": tl_cat, "disc": tl_disc, "abs": [], "traces": tl_traces, "prim": tl_prim, "tri": tl_tri, "seq": tl_seq}
     path = os.path.join(scratch(), "c03.json")
     with open(path, "w") as f:
         json.dump(data, f)
@@ -538,10 +604,10 @@ def main(tier):
     ck.add_tlc("RegionSampling (abstract universe)", ares)
     res.outputs += ares.outputs
     for r_, what in ((ares, "abstract"), (res, "binding")):
-        for act in ("PickCase", "UChoose", "UDraw", "UCoin", "IDraw", "ITest", "DDraw", "DTest") + (("Pick",) if what == "binding" else ()):
+        for act in ("PickCase", "UChoose", "UDraw", "UCoin", "IDraw", "ITest", "DDraw", "DTest") + (("Pick", "SAlt", "SPt") if what == "binding" else ()):
             if r_.coverage.get(act, (0, 0))[1] == 0:
                 raise MachineryError(f"RegionSampling action never taken in the {what} run (vacuous model): {act} {sorted(r_.coverage.items())}")
-    out = {"disc": {}, "trace": set(), "prim": {}, "tri": {}, "abs": 0}
+    out = {"disc": {}, "trace": set(), "prim": {}, "tri": {}, "abs": 0, "seq": {}}
     for o in res.outputs:
         if o["t"] == "disc":
             out["disc"][o["k"] - 1] = o
@@ -551,6 +617,8 @@ def main(tier):
             out["prim"][o["k"] - 1] = o
         elif o["t"] == "tri":
             out["tri"][o["k"] - 1] = o
+        elif o["t"] == "seq":
+            out["seq"].setdefault(o["k"] - 1, []).append(o)
         elif o["t"] == "abs":
             out["abs"] += 1
     ck.cov["abstract_cases"] = len(acases)
@@ -600,6 +668,28 @@ def main(tier):
         else:
             msg = f"not uniform: {[(k2, str(v)) for k2, v in list(law.items())[:4]]}"
         ck.violation(f"{name}: {msg}", dict(rep, expected={str(k2): str(v) for k2, v in exp.items()}), known_key=known)
+
+    # ---- (a') consecutive samples of one IntersectionRegion with a random second operand
+    for k, ((psn, alts, what), r) in enumerate(zip(SEQ_CASES, sres_)):
+        name = f"{psn} & random({' | '.join(alts)}) sampled twice"
+        ck.case(("seq", name), True)
+        rep = {"property": "C03", "layer": "a", "case": name, "observed": r}
+        if "error" in r:
+            ck.violation(f"{name}: {r['error']}", rep)
+            continue
+        exp = {}
+        for o in out["seq"].get(k, []):
+            key = tuple(tuple(d[1]) for d in o["draws"])
+            exp[key] = exp.get(key, Fraction(0)) + Fraction(o["w"][0], o["w"][1])
+        if not exp or sum(exp.values()) != 1:
+            raise MachineryError(f"sequence case {name}: the spec's law does not sum to 1")
+        law = {tuple(tuple(p) if p != "rejected" else p for p in key): Fraction(n_, d_) for key, n_, d_ in r["law"]}
+        if law == exp:
+            ck.validated(r["branches"])
+        else:
+            diff = [(str(k2), str(law.get(k2, 0)), str(exp.get(k2, 0))) for k2 in sorted(set(law) | set(exp), key=str) if law.get(k2, 0) != exp.get(k2, 0)][:4]
+            ck.violation(f"{name}: the joint law of two consecutive samples is not the product of the per-sample laws "
+                         f"(sample, observed, expected): {diff}", dict(rep, expected={str(k2): str(v) for k2, v in exp.items()}))
 
     # ---- (b) traces
     ntraces = 0
